@@ -159,9 +159,10 @@ def run_case(case):
                               REQUEST_RESPONSE_DELAY_MIN=0.041, REQUEST_RESPONSE_DELAY_MAX=0.043)
         OPTS_ = OPTSETS[case.get("opts", 0) % len(OPTSETS)]
         # timings given to the constructors or assigned to the objects' Timings afterwards (before anything is started)
-        tm_prot, apply_p = late(tm_prot, bool(case.get("late")))
-        tm_inst, apply_i = (tm_prot, apply_p) if tm_inst_same else late(tm_inst, bool(case.get("late")))
-        prot = make_sd(sim, tm_prot)
+        ctor_arg, apply_p = late(tm_prot, bool(case.get("late")))
+        prot = make_sd(sim, ctor_arg)
+        tm_prot = apply_p(prot)            # the protocol object's live Timings
+        tm_inst = tm_prot if tm_inst_same else late(tm_inst, bool(case.get("late")))[1]()
         ann = prot.announcer
         runs = {i: [] for i in range(n)}
         queued = []
@@ -183,8 +184,6 @@ def run_case(case):
             o1, o2 = OPTS_[i]
             svc = cfg.Service(sid, iid, maj, minor, options_1=tuple(lib_option(o) for o in o1), options_2=tuple(lib_option(o) for o in o2))
             ann.announce_service(sd.ServiceInstance(svc, ServerRec(sim, [], f"I{i}"), ann, tm_inst))
-        apply_p()
-        apply_i()
         started = [False]
         finds = []
 
